@@ -22,4 +22,5 @@ import (
 	_ "verifharness/props/c18"
 	_ "verifharness/props/c19"
 	_ "verifharness/props/c20"
+	_ "verifharness/props/selftest"
 )
